@@ -475,7 +475,99 @@ class World:
         CURRENT[0] = None
 
     # ------------------------------------------------------------------ nodes
+    def _raw_runner(self, spec, inc):
+        """A node that uses the ZMQSender / ZMQReceiver API directly (no Filter): role 'raw_pub' publishes raw['n'] one-topic
+        frames with a blocking or timed send(); role 'raw_sub' reads with recv(timeout) and can pause, stall for good and
+        send out-of-band notes while stalled.  Same client-boundary log as VFilter ('process' events with tokens)."""
+        w = self
+        stop_evt = threading.Event()
+        raw = spec['raw']
+        nid = spec['id']
+
+        def log(ev, **kw):
+            w.clog.append({'t': w.sim.now, 'node': nid, 'inc': inc, 'ev': ev, 'li': len(w.sim.log), **kw})
+            if ev == 'process':
+                w.proc_counts[nid] = w.proc_counts.get(nid, 0) + 1
+            sa = w.stop_after
+            if sa and ev in sa['evs'] and nid == sa['node'] and w.stop_at is None:
+                w.stop_at = w.sim.now + int(sa.get(ev + '_ms', sa.get('grace_ms', 1500)) * MS)
+
+        def pub():
+            from openfilter.filter_runtime import zeromq
+            log('run-enter')
+            sender = zeromq.ZMQSender(spec['config']['outputs'], nid, outs_required=raw.get('required') or None)
+            try:
+                for i in range(raw.get('n', 10 ** 7)):
+                    if stop_evt.is_set():
+                        break
+                    if raw.get('period_ms'):
+                        w.sim.sleep(raw['period_ms'] / 1000)
+                    tok = {'o': nid, 'oi': inc, 'seq': i, 'tp': 'main', 'c': 'data'}
+                    msg = {'main': [None, json.dumps(tok, separators=(',', ':')).encode()]}
+                    to = raw.get('send_timeout_ms')        # None = the documented blocking form
+                    while sender.send(msg, timeout=to) is None and not stop_evt.is_set():
+                        pass
+            finally:
+                sender.destroy()
+            log('run-returned', stop_evt=True)
+
+        def sub():
+            from openfilter.filter_runtime import zeromq
+            log('run-enter')
+            recv = zeromq.ZMQReceiver([(a, None) for a in spec['config']['sources']], nid)
+            n = 0
+            try:
+                while not stop_evt.is_set():
+                    for pa in raw.get('pauses') or ():          # [after_n, secs]: stop reading for a while, then go on
+                        if pa[0] == n and not pa[2:]:
+                            pa.append('done')
+                            w.sim.sleep(pa[1])
+                    st = raw.get('stall_after')
+                    if st is not None and n >= st:
+                        log('stall-begin', secs=raw.get('stall_secs', 10 ** 6))
+                        t_end = w.sim.now + int(raw.get('stall_secs', 10 ** 6) * 1e9)
+                        while w.sim.now < t_end and not stop_evt.is_set():
+                            if raw.get('oob_every_ms'):
+                                recv.send_oob(['note'])          # a consumer that no longer reads still talks upstream
+                                log('oob-note')
+                            w.sim.sleep((raw.get('oob_every_ms') or 100) / 1000)
+                        log('stall-end')
+                        raw['stall_after'] = None
+                        continue
+                    res = recv.recv(timeout=raw.get('recv_timeout_ms', 100))
+                    if res is None:
+                        continue
+                    data, _ = res
+                    ins = {}
+                    for t, m in data.items():
+                        try:
+                            d = json.loads(bytes(m[1]))
+                            ins[t] = {k: d.get(k) for k in ('o', 'oi', 'seq', 'tp', 'c')}
+                        except Exception:
+                            ins[t] = {'hidden': []}
+                    log('process', n=n, ins=ins, bad=None)
+                    n += 1
+                    if raw.get('proc_ms'):
+                        w.sim.sleep(raw['proc_ms'] / 1000)
+            finally:
+                recv.destroy()
+            log('run-returned', stop_evt=True)
+
+        body = pub if spec['role'] == 'raw_pub' else sub
+
+        def fn():
+            try:
+                body()
+            except kernel.SimKilled:
+                raise
+            except BaseException as e:
+                w.clog.append({'t': w.sim.now, 'node': nid, 'inc': inc, 'ev': 'run-raised', 'exc': type(e).__name__, 'msg': str(e)[:160], 'stop_evt': True})
+                raise
+        return fn, stop_evt
+
     def _runner(self, spec, inc):
+        if spec['role'].startswith('raw_'):
+            return self._raw_runner(spec, inc)
         VFilter = self.VFilter
         cfg = {'outputs_metrics': False, 'outputs_filter': False, **spec['config'], 'id': spec.get('config_id') or spec['id']}
         stop_evt = threading.Event()
